@@ -23,7 +23,7 @@ PROPS = {
     },
     "C06": {
         "theorems": ["isHidden_complete", "isHidden_complete_comparable", "hidden_never_delegated", "hidden_refused", "rename_refused", "symlink_refused", "refusal_classes"],
-        "streams": [{"name": "layers"}],
+        "streams": [{"name": "layers"}, {"name": "osmodel", "quick": ["-n", "300"], "thorough": ["-n", "5000"]}],
         "assumptions": LAYER_ASSUME,
     },
     "C14": {
@@ -33,7 +33,7 @@ PROPS = {
     },
     "C15": {
         "theorems": ["isHidden_sound", "visible_of_outside", "nonhidden_delegates", "arguments_unchanged"],
-        "streams": [{"name": "layers"}],
+        "streams": [{"name": "layers"}, {"name": "osmodel", "quick": ["-n", "300"], "thorough": ["-n", "5000"]}],
         "assumptions": LAYER_ASSUME,
     },
     "C18": {
@@ -103,5 +103,10 @@ PROPS = {
         "theorems": ["rollback_total", "success_means_every_step_succeeded", "restoreFile_propagates_open_error", "restoreSymlink_propagates_lstat_error"],
         "streams": [{"name": "faults", "quick": ["-n", "40"], "thorough": ["-n", "400"]}],
         "assumptions": HIST_ASSUME + ["faults are injected on both filesystems incl. handle primitives (Read/Write/Close/Stat)"],
+    },
+    "C11": {
+        "theorems": ["listing_stream", "eof_only_when_exhausted", "drain_returns_all", "listed_is_outside", "rename_ancestor_refused"],
+        "streams": [{"name": "listing"}, {"name": "osmodel", "quick": ["-n", "300"], "thorough": ["-n", "5000"]}, {"name": "layers", "quick": ["-n", "12000"]}],
+        "assumptions": LAYER_ASSUME + ["the directory stream of the underlying os.File returns every entry once, in a fixed order (taken from a plain Readdirnames(-1) of the same directory)"],
     },
 }
